@@ -208,6 +208,38 @@ def parse_strace_opens(text):
     return out
 
 
+STAT_RE = re.compile(
+    r'^(?P<pid>\d+)\s+(?P<call>stat|lstat|newfstatat|statx)\((?P<args>.*)\)\s+=\s+(?P<ret>-?\d+)(?:\s+(?P<errno>E\w+).*)?$')
+
+
+def parse_strace_stats(text):
+    """Paths successfully stat'ed (stat, lstat, newfstatat, statx with a path argument) in the output of
+    `strace -f -e trace=...,stat,lstat,newfstatat,statx -o file`."""
+    pending = {}
+    out = []
+    for line in text.splitlines():
+        m = re.match(r"^(\d+)\s+(.*)$", line)
+        if not m:
+            continue
+        pid, rest = m.group(1), m.group(2)
+        if rest.endswith("<unfinished ...>"):
+            pending[pid] = rest[: -len("<unfinished ...>")].rstrip()
+            continue
+        mm = re.match(r"^<\.\.\. (\w+) resumed>(.*)$", rest)
+        if mm:
+            if pid in pending:
+                rest = pending.pop(pid) + mm.group(2)
+            else:
+                continue
+        m2 = STAT_RE.match(pid + " " + rest)
+        if not m2 or int(m2.group("ret")) != 0:
+            continue
+        sm = STR_RE.search(m2.group("args"))
+        if sm and sm.group(1):
+            out.append(_unescape_strace(sm.group(1)))
+    return out
+
+
 class _SubCtx:
     def __init__(self, ctx, sub):
         self.check, self.tier, self.strict = ctx.check, ctx.tier, ctx.strict
